@@ -149,6 +149,17 @@ CLAIMED = {
              "re-spin, arbitrary twists and wrenches, cond <= 1e4. Finite differences thresholded at 1e-6, equilibrium "
              "at 1e-8.",
         note="TLC exact arithmetic for rows; finite differences of the implementation's IK; float linear solves"),
+    "C10": dict(
+        level="model_checking", design="3/C10",
+        technique="TLA+ spec Stewart.tla: the validate / corrective-action protocol modelled step by step under adversarial "
+                  "constraint outcomes, model-checked by TLC for Sound / Bounded / NoNestedCorrection over all switch subsets "
+                  "(and shown non-vacuous by a weakened variant); random histories of the real platform recorded at public "
+                  "call boundaries (nested validate calls, verdict, coherence residuals, constraints recomputed from public "
+                  "getters, query purity) and validated by TLC against StewartTrace.tla",
+        text="TLC explores every interleaving of check outcomes of the protocol; every recorded public call of random "
+             "histories (all 16 switch subsets, in/out-of-workspace requests, both FK solvers, reverse FK, move, re-spin, "
+             "queries) must satisfy the spec's event predicate. Exhaustive on the protocol model, randomised on the code.",
+        note="TLC; constraint truths recomputed by the harness from public getters; coherence at 1e-9"),
 }
 
 NOT_YET = "check not built yet in this round (planned: see DESIGN.md section 3)"
